@@ -154,7 +154,7 @@ impl Drop for EventSender<'_> {
         });
         #[cfg(may_verif)]
         may_queue::verif::point(may_queue::verif::site::CQ_DROP_PUSHED, 0);
-        self.cqueue.cnt.fetch_sub(1, Ordering::Relaxed);
+        self.cqueue.cnt.fetch_sub(1, Ordering::Release);
         #[cfg(may_verif)]
         may_queue::verif::point(may_queue::verif::site::CQ_DROP_SUBBED, 0);
         if let Some(w) = self.cqueue.to_wake.take() {
@@ -267,8 +267,13 @@ impl Cqueue {
                 None => {
                     #[cfg(may_verif)]
                     may_queue::verif::point(may_queue::verif::site::CQ_POLL_EMPTY, self as *const _ as usize);
-                    if self.cnt.load(Ordering::Relaxed) == 0 {
-                        return Err(PollError::Finished);
+                    if self.cnt.load(Ordering::Acquire) == 0 {
+                        // the last select coroutine pushes its final event before it
+                        // decrements cnt, that may have happened after we looked
+                        match self.ev_queue.pop() {
+                            Some(mut ev) => run_ev!(ev),
+                            None => return Err(PollError::Finished),
+                        }
                     }
                 }
             }
